@@ -824,7 +824,7 @@ func (t *TriDense) SolveTo(dst *Dense, trans bool, b Matrix) error {
 
 	work := getFloat64s(3*n, false)
 	iwork := getInts(n, false)
-	cond := lapack64.Trcon(CondNorm, t.mat, work, iwork)
+	cond := 1 / lapack64.Trcon(CondNorm, t.mat, work, iwork)
 	putFloat64s(work)
 	putInts(iwork)
 	if cond > ConditionTolerance {
